@@ -15,9 +15,9 @@ CHECKS = {
    text="All code points 1..2^31-1 (one symbolic word) for length/round-trip/prefix clauses; all byte strings of length <= 8 (12 thorough) for no-over-read, continuation-byte and length-counter clauses.",
    note="malloc never fails; out-of-bounds pointer *formation* without access in a_utf_length_ is reported separately (mem_ub_formation_reports), not as a violation."),
  "C19": dict(engine="cbmc+llsym", cat="model_checking", design="4/C19 and 8.3",
-   technique="loop-invariant proofs of isqrt and gcd on the clang IR of src/math.c (llsym: base case per start value in the bit-vector domain, one symbolic iteration of the real loop body from a havoced state, exit state; obligations translated to integer arithmetic with the mod-2^w semantics kept, decided by z3) plus bounded model checking of the integer kernels and a.h bit/byte accessors with CBMC (SAT back ends raced, native replay)",
-   text="isqrt and gcd, both widths: every input of the full width and any number of loop iterations, by invariant (isqrt: 1 <= x1 <= 2^(w/2) and (x1+1)^2 > x, result r with r^2 <= x < (r+1)^2; gcd: common divisors of the loop state = common divisors of the arguments, result divides both, every common divisor divides it, zero only for two zeros); a counterexample to an obligation is run natively and reported only if the real function disagrees with the reference value. CBMC, bit-precise: isqrt for every x < 2^20 (2^26 thorough) plus 2049-wide windows around every power of two; gcd/lcm for operands < 2^8 (2^11) with a symbolic competing divisor, the same shifted to the upper bits, lcm against gcd's contract; rev/endian: full width.",
-   note="The inductive step has no unwinding bound; it rests on the stated invariant, on the bit-vector-to-integer translator (lib/llsym/bvint.py: add/sub/mul/shl mod 2^w, udiv/urem as named quotient/remainder with their defining equation) and on dropping pre-loop constraints it cannot express (count-leading-zeros) - fewer assumptions. lcm at full width is outside."),
+   technique="loop-invariant proofs of isqrt and gcd (and lcm against the proved gcd contract) on the clang IR of src/math.c (llsym: base case per start value in the bit-vector domain, one symbolic iteration of the real loop body from a havoced state, exit state; obligations translated to integer arithmetic with the mod-2^w semantics kept, decided by z3) plus bounded model checking of the integer kernels and a.h bit/byte accessors with CBMC (SAT back ends raced, native replay)",
+   text="isqrt and gcd, both widths: every input of the full width and any number of loop iterations, by invariant (isqrt: 1 <= x1 <= 2^(w/2) and (x1+1)^2 > x, result r with r^2 <= x < (r+1)^2; gcd: common divisors of the loop state = common divisors of the arguments, result divides both, every common divisor divides it, zero only for two zeros; lcm: result * gcd = product whenever a*b/gcd is representable, with gcd replaced by its proved contract); a counterexample to an obligation is run natively and reported only if the real function disagrees with the reference value. CBMC, bit-precise: isqrt for every x < 2^20 (2^26 thorough) plus 2049-wide windows around every power of two; gcd/lcm for operands < 2^8 (2^11) with a symbolic competing divisor, the same shifted to the upper bits, lcm against gcd's contract; rev/endian: full width.",
+   note="The inductive step has no unwinding bound; it rests on the stated invariant, on the bit-vector-to-integer translator (lib/llsym/bvint.py: add/sub/mul/shl mod 2^w, udiv/urem as named quotient/remainder with their defining equation) and on dropping pre-loop constraints it cannot express (count-leading-zeros) - fewer assumptions."),
 }
 
 E2NOTE = "llsym = own forking symbolic executor for the clang-14 -O0 + sroa,mem2reg IR of the real sources with z3 as decision procedure; validated every run against a native ASan build on sampled paths; findings are replayed natively before they are reported."
